@@ -229,10 +229,54 @@ def h_compound(op, m):
     _encloses(m, bb, px, py, Or(ina, inb), 'compound')
 
 
+def h_reassign(kind, m):
+    """the box follows the parameters: read the box, assign new parameters, read it again"""
+    from regions import CirclePixelRegion, PolygonPixelRegion, EllipsePixelRegion, PixCoord
+    _shims(m)
+    dt = object if m.sym else float
+    if kind == 'polygon':
+        ax, ay = m.real('ax'), m.real('ay')
+        reg = PolygonPixelRegion(PixCoord(np.array([ax, ax + 1, ax], dtype=dt), np.array([ay, ay, ay + 2], dtype=dt)))
+        first = reg.bounding_box
+        cx, cy = m.real('vx0'), m.real('vy0')
+        vx = [cx] + [cx + m.real(f'ex{i}') for i in (1, 2)]
+        vy = [cy] + [cy + m.real(f'ey{i}') for i in (1, 2)]
+        reg.vertices = PixCoord(np.array(vx, dtype=dt), np.array(vy, dtype=dt))
+        bb = reg.bounding_box
+        e = bb.extent
+        for k in range(3):
+            m.require(f'after re-assignment: vertex {k} lies inside the extent of the box',
+                      And(e[0] <= vx[k], vx[k] <= e[1], e[2] <= vy[k], vy[k] <= e[3]))
+        _minimal(m, bb, [(x, y, True) for x, y in zip(vx, vy)], 'after re-assignment')
+    elif kind == 'circle':
+        reg = CirclePixelRegion(PixCoord(m.real('ax'), m.real('ay')), m.pos('ar'))
+        first = reg.bounding_box
+        cx, cy, r = m.real('cx'), m.real('cy'), m.pos('r')
+        reg.center = PixCoord(cx, cy)
+        reg.radius = r
+        bb = reg.bounding_box
+        px, py = cx + m.real('px'), cy + m.real('py')
+        _encloses(m, bb, px, py, O.disk_in(px, py, cx, cy, r), 'after re-assignment')
+        W = [(cx - r, cy), (cx + r, cy), (cx, cy - r), (cx, cy + r)]
+        _minimal(m, bb, [(x, y, True) for x, y in W], 'after re-assignment')
+    else:
+        reg = EllipsePixelRegion(PixCoord(m.real('ax'), m.real('ay')), m.pos('aw'), m.pos('ah'))
+        first = reg.bounding_box
+        cx, cy, w, h = m.real('cx'), m.real('cy'), m.pos('w'), m.pos('h')
+        ang = m.angle('theta', 'deg')
+        reg.center, reg.width, reg.height, reg.angle = PixCoord(cx, cy), w, h, ang
+        c, s = symx.angle_cs(ang)
+        bb = reg.bounding_box
+        px, py = cx + m.real('px'), cy + m.real('py')
+        _encloses(m, bb, px, py, O.ellipse_in(px, py, cx, cy, w, h, c, s), 'after re-assignment')
+    again = reg.bounding_box
+    m.require('reading the box twice gives the same box', _same(bb, again))
+
+
 def harnesses(tier):
     P = functools.partial
     q = tier == 'quick'
-    aus = ['deg'] if q else ['default', 'deg', 'rad', 'arcmin']
+    aus = ['deg', 'rad'] if q else ['default', 'deg', 'rad', 'arcmin']
     hs = [('circle', h_circle), ('line', h_line), ('point', P(h_point, 'point')), ('text', P(h_point, 'text')),
           ('annulus-circle', P(h_annulus, 'circle', 'deg'))]
     for au in aus:
@@ -243,6 +287,8 @@ def harnesses(tier):
         hs.append((f'polygon/n={n}', P(h_polygon, n)))
     for n in ([3, 4] if q else [3, 4, 6]):
         hs.append((f'regular-polygon/n={n}', P(h_regpoly, n, 'deg')))
+    for kind in ('polygon', 'circle', 'ellipse'):
+        hs.append((f'reassign/{kind}', P(h_reassign, kind)))
     for op in (['or', 'xor'] if q else ['or', 'and', 'xor']):
         hs.append((f'compound/{op}', P(h_compound, op)))
     return hs
@@ -257,7 +303,7 @@ META = {
                           'regions.shapes.annulus.AnnulusPixelRegion.bounding_box',
                           'regions.core.compound.CompoundPixelRegion.bounding_box',
                           'regions.core.bounding_box.RegionBoundingBox.from_float/extent/union/__or__'],
-    'bounds': {'quick': {'polygon_vertices': [3], 'regular_polygon_n': [3, 4], 'angle_units': ['deg'],
+    'bounds': {'quick': {'polygon_vertices': [3], 'regular_polygon_n': [3, 4], 'angle_units': ['deg', 'rad'],
                          'continuous_parameters': 'unbounded reals'},
                'thorough': {'polygon_vertices': [3, 4], 'regular_polygon_n': [3, 4, 6],
                             'angle_units': ['default', 'deg', 'rad', 'arcmin'], 'continuous_parameters': 'unbounded reals'}},
